@@ -1,6 +1,6 @@
 #!/usr/bin/env python3
 """Development tool: create a mutation patch from one textual edit of /repo.
-usage: mkmut.py <name> <property,...> <file relative to /repo> <old> <new> [benign]
+(works on /repo directly and resets it at once) usage: mkmut.py <name> <property,...> <file relative to /repo> <old> <new> [benign]
 Writes /verif/mutations/<name>.patch (or mutations/benign/) and appends to mutations/INDEX.tsv."""
 import sys,subprocess,os
 name,props,f,old,new=sys.argv[1:6]; benign=len(sys.argv)>6
